@@ -344,6 +344,31 @@ pub fn run_integrity(args: &Args) -> (u64, u64) {
             integ_event(&mut tr, "windows", &f3, &salt, &key);
         }
     }
+    // keys and salts with zero bytes at either end, all-zero and all-0xFF values (every function must hash all 32 / 16 bytes)
+    let mut data = vec![0u8; 100];
+    rng.fill_bytes(&mut data);
+    for k in 0..12usize {
+        let mut k2 = key;
+        let mut s2 = salt;
+        match k {
+            0 => k2[31] = 0,
+            1 => { k2[31] = 0; k2[30] = 0; }
+            2 => k2[0] = 0,
+            3 => k2 = [0u8; 32],
+            4 => k2 = [0xff; 32],
+            5 => { k2 = [0u8; 32]; k2[0] = 1; }
+            6 => s2[15] = 0,
+            7 => s2[0] = 0,
+            8 => s2 = [0u8; 16],
+            9 => { s2 = [0u8; 16]; k2 = [0u8; 32]; }
+            10 => { k2[31] = 0x80; }
+            _ => { k2[16] = 0; s2[8] = 0; }
+        }
+        let files = split_random(&mut rng, &data, 5);
+        integ_event(&mut tr, "windows", &files, &s2, &k2);
+        integ_event(&mut tr, "mac", &files, &s2, &k2);
+        integ_event(&mut tr, "generic", &[data.clone()], &s2, &k2);
+    }
     for _ in 0..(if thorough { 200 } else { 20 }) {
         let mut s = [0u8; 16];
         rng.fill_bytes(&mut s);
